@@ -163,7 +163,14 @@ pub fn parse_glyph(data: &[u8]) -> Result<GlyphRec, String> {
     let mut r = R { d: data, at: 0 };
     let nc = r.i16()?;
     if nc == 0 {
-        return Ok(GlyphRec::empty());
+        // a record without contours: bounding box, then (if the record goes on) the instruction block
+        let mut e = GlyphRec::empty();
+        if data.len() >= 12 {
+            e.bbox = [r.i16()?, r.i16()?, r.i16()?, r.i16()?];
+            let il = r.u16()? as usize;
+            e.instr = r.bytes(il)?.to_vec();
+        }
+        return Ok(e);
     }
     let bbox = [r.i16()?, r.i16()?, r.i16()?, r.i16()?];
     if nc > 0 {
